@@ -150,6 +150,23 @@ def _adjacent(case) -> bool:
     return len(a & b) >= 2
 
 
+# An un-chopped block B whose four parallel edges meet two conflicting demands unevenly: two edges belong to A
+# (count 5, face neighbour), one to D (count 7, touching B along one edge only), one is free.  All 24 numberings of B
+# are enumerated, so the edge shared with D takes every position among B's four wires.
+_UNEVEN = [
+    {
+        "dims": [3, 2, 1], "widths": [[1.0, 1.0, 1.0], [1.0, 1.0], [1.0]], "jitter": [], "cells": [0, 5, 1],
+        "orient": [0, 0, rot], "mode": "conflict", "conflict": {"family": 0, "first": [0, 2], "second": [5, 2]},
+        "chops": [
+            {"cell": 0, "gdir": 2, "args": {"count": 5}}, {"cell": 5, "gdir": 2, "args": {"count": 7}},
+            {"cell": 0, "gdir": 0, "args": {"count": 2}}, {"cell": 1, "gdir": 0, "args": {"count": 2}},
+            {"cell": 5, "gdir": 0, "args": {"count": 2}}, {"cell": 0, "gdir": 1, "args": {"count": 3}},
+            {"cell": 5, "gdir": 1, "args": {"count": 3}},
+        ],
+    }
+    for rot in range(24)
+]
+
 CELLS = [
     Cell("C01/success/wellposed", with_history(lt.chopped_lattice("wellposed")), check_success, 150, 8000,
          "one count chop (1-in-5 multi-section) per edge family, written once / twice / after an explicit grade(); counts "
@@ -159,5 +176,6 @@ CELLS = [
     Cell("C01/success/graded", with_history(lt.chopped_lattice("wellposed", graded=True, jitter="yes")), check_success, 100, 6000,
          "graded chops (sizes, ratios, preserve modes) on jittered lattices"),
     Cell("C01/conflict", lt.chopped_lattice("conflict").filter(lambda c: c is not None), check_conflict, 200, 10000,
-         "two count chops with different totals in one family: InconsistentGradingsError and no file"),
+         "two count chops with different totals in one family: InconsistentGradingsError and no file",
+         fixed_cases=_UNEVEN),
 ]
